@@ -1339,10 +1339,26 @@ var g = &grammar{
 					expr: &choiceExpr{
 						pos: position{line: 349, col: 22, offset: 11099},
 						alternatives: []interface{}{
-							&litMatcher{
-								pos:        position{line: 349, col: 22, offset: 11099},
-								val:        "void",
-								ignoreCase: false,
+							&seqExpr{
+								pos: position{line: 349, col: 22, offset: 11099},
+								exprs: []interface{}{
+									&litMatcher{
+										pos:        position{line: 349, col: 22, offset: 11099},
+										val:        "void",
+										ignoreCase: false,
+									},
+									&notExpr{
+										pos: position{line: 349, col: 29, offset: 11106},
+										expr: &charClassMatcher{
+											pos:        position{line: 349, col: 30, offset: 11107},
+											val:        "[A-Za-z0-9._]",
+											chars:      []rune{'.', '_'},
+											ranges:     []rune{'A', 'Z', 'a', 'z', '0', '9'},
+											ignoreCase: false,
+											inverted:   false,
+										},
+									},
+								},
 							},
 							&ruleRefExpr{
 								pos:  position{line: 349, col: 31, offset: 11108},
